@@ -57,6 +57,39 @@ pub fn generate(g: &mut Gen, thorough: bool) {
         let v: Vec<String> = (0..4).map(|_| fbits(f64::from_bits(g.rng.next()))).collect();
         g.push(format!("S_C19C\t{}", v.join(",")), "oracle-container-bits", true);
     }
+    // the tuple trait's default methods, model against implementation: every method x every dimension
+    // x indices in and out of range x slices shorter than, as long as and longer than the tuple
+    {
+        let pool = [0.0, -0.0, 1.5, -2.25, f64::NAN, f64::INFINITY, 1e-310, 7.0, 8.0, 9.0];
+        let pickv = |g: &mut Gen| if g.rng.chance(1, 3) { f64::from_bits(g.rng.next()) } else { *g.rng.pick(&pool) };
+        for dim in ["2", "3", "4", "p"] {
+            let n = match dim { "2" | "p" => 2, "3" => 3, _ => 4 };
+            for _ in 0..(if thorough { 40 } else { 6 }) {
+                let vals: Vec<String> = (0..n).map(|_| fbits(pickv(g))).collect();
+                let vals = vals.join(",");
+                let mut ops: Vec<(String, String)> = vec![];
+                for op in ["x", "y", "z", "t"] {
+                    ops.push((op.to_string(), "-".to_string()));
+                }
+                for i in [0.0, 1.0, 2.0, 3.0, 4.0, 9.0, 1e19] {
+                    ops.push(("nth".to_string(), fbits(i)));
+                    ops.push(("set_nth".to_string(), format!("{},{}", fbits(i), fbits(pickv(g)))));
+                }
+                ops.push(("fill".to_string(), fbits(pickv(g))));
+                for (op, k) in [("set_xy", 2), ("set_xyz", 3), ("set_xyzt", 4)] {
+                    let a: Vec<String> = (0..k).map(|_| fbits(pickv(g))).collect();
+                    ops.push((op.to_string(), a.join(",")));
+                }
+                for k in 0..=6 {
+                    let a: Vec<String> = (0..k).map(|_| fbits(pickv(g))).collect();
+                    ops.push(("update".to_string(), if k == 0 { "-".to_string() } else { a.join(",") }));
+                }
+                for (op, a) in ops {
+                    g.push(format!("TUP\t{dim}\t{vals}\t{op}\t{a}"), &format!("tuple-{op}"), true);
+                }
+            }
+        }
+    }
     // unit conversions of whole tuples: angular elements only
     for _ in 0..(if thorough { 2000 } else { 200 }) {
         let special = [0.0, -0.0, f64::NAN, f64::INFINITY, 1e-300, 100.0, 2020.0, -7.5];
